@@ -63,7 +63,7 @@ def cases(draw):
 
 
 def jobs(tier, seed):
-    n, shards = (3200, 8) if tier == "quick" else (48000, 16)
+    n, shards = (3200, 8) if tier == "quick" else (192000, 16)
     return [{"name": f"hyp-{i}", "kind": "hyp", "seed": seed * 1000 + i, "n": n // shards} for i in range(shards)]
 
 
